@@ -40,7 +40,7 @@ CHECKS['C04'] = dict(level='exploration', design='6/C04',
 CHECKS['C08'] = dict(level='exploration', design='6/C08',
     technique='property-based testing (Hypothesis): set equality (two-sided bounds L <= FASTA <= U) against a definitional ORF digest by the independent model; ORF FASTA re-derived from the transcript sequence; attribution of every peptide to its named ORF',
     text='For generated references and option sets (biotype inclusion/exclusion files, min-tx-length, coding-novel-orf, orf-assignment, w2f, all cleavage rules) the callNovelORF FASTA must contain every certain product and nothing but possible products of the ORFs (every ATG, three frames, to next stop or transcript end) of exactly the transcripts the options select, minus the model canonical pool; the ORF FASTA must list every ORF a header names, each listed ORF must start at an ATG of a selected transcript and its coordinates must translate to the listed sequence.',
-    note='L/U differ only by a 1e-6 Da mass band, by W>F forms of canonical peptides, and by the reading of multi-residue cleavage windows next to the ORF ends (isolated vs. with flanking residues / stop symbol). Strict domain: all rules except pepsin, no trypsin exception; thorough adds those, tolerated only as the open findings CV-pepsin / CV-trypsin-exception. Biotype filters are modelled on the gene biotype attribute, as the tool reads it.')
+    note='L/U differ only by a 1e-6 Da mass band, by W>F forms of canonical peptides, and by the reading of multi-residue cleavage windows next to the ORF ends (isolated vs. with flanking residues / stop symbol). Zero tolerance over all 35 rules and exception settings. Biotype filters are modelled on the gene biotype attribute, as the tool reads it.')
 CHECKS['C09'] = dict(level='exploration', design='6/C09',
     technique='property-based testing (Hypothesis): set equality (two-sided bounds) against a definitional alt-translation digest by the independent model; every header entry replayed as a witness (named SECT / W2F events alone reproduce the peptide)',
     text='For generated references with selenoprotein transcripts, W-rich CDSs and NF tags, and the three flag combinations, the callAltTranslation FASTA must equal the model set: products of the annotated translation that arise only through termination at an annotated Sec codon and/or W>F substitution, minus plain products and the canonical pool; each header entry must name a coding transcript and events that alone reproduce the peptide.',
@@ -61,6 +61,18 @@ CHECKS['C12'] = dict(level='exploration', design='6/C12',
     technique='model-based testing of operation histories (dictionary model params -> pool, pool from the independent digest model): exhaustive enumeration of all histories up to length 3 (quick) / 4 (thorough) over a reduced operation alphabet + Hypothesis-generated longer histories; invariant checked after every step',
     text='Histories of generateIndex / updateIndex (with and without --force) / load / metadata-version tampering on one directory: after every step each registered parameter set must load exactly its own model pool and the saved genome, proteome, annotation and coding-transcript data; absent sets and invalid recorded versions must be refused; refused operations must leave every file byte-identical.',
     note='Alphabet of 8 parameter sets (two aliases of the same parameters); histories <= 10 steps; one small reference per history. Exhaustive only for the stated bounded alphabet and length.')
+CHECKS['C18'] = dict(level='exploration', design='6/C18',
+    technique='property-based testing (Hypothesis): conservation laws (each sequence exactly once, entries preserved) + independent model of the database choice for splitFasta, union law for mergeFasta, round trip through the .dict file for encodeFasta (incl. decoy-first order), cross-check summarizeFasta totals vs split sizes',
+    text='Synthetic multi-entry FASTAs over a generated annotation and GVF source assignment are split (order / groups / max-groups / additional-split / wildcards), merged back, merged as overlapping halves, encoded (with decoy records in three orders) and summarized; every output is compared with an independent model of the documented behaviour.',
+    note='Database choice is modelled for orders of single sources and groups; with wildcards only conservation is checked. Groups mix only point-mutation sources or internal sources (mixing parsers summarizeFasta regards as mutually exclusive suppresses table rows). A split that does not finish within 60 s on <= 25 peptides is reported as a hang.')
+CHECKS['C19'] = dict(level='exploration', design='6/C19',
+    technique='property-based testing (Hypothesis): exact expected output from an independent per-entry predicate (model-based), idempotence, monotonicity in cutoff and miscleavage range (metamorphic)',
+    text='Synthetic multi-entry FASTAs x expression tables (values around the cutoff, named or numbered columns, skipped lines) x flags x denylists x closed miscleavage ranges x enzymes are filtered through the CLI with --index-dir; kept peptides and kept entries must equal what the stated rule gives; re-filtering is the identity; stricter settings keep sub-collections.',
+    note='Coding transcripts come from coding_transcripts.pkl; the --annotation-gtf path of filterFasta (which cannot know coding status from a plain GTF) is not exercised. Open-ended miscleavage ranges are outside the CLI\'s accepted domain.')
+CHECKS['C20'] = dict(level='exploration', design='6/C20',
+    technique='property-based testing (Hypothesis): invariants (targets unchanged, one decoy per target, permutation, fixed positions), exact model for the reverse method, reproducibility under a perturbed global RNG, metamorphic relation under input permutation, output-order invariant',
+    text='Generated unique-sequence targets (incl. low-complexity peptides) in generated record orders x method x enzyme x fixed-position options x seed x decoy string x output order: all clauses of the statement are checked on the written FASTA.',
+    note='Strict domain: no enzyme or lysn / asp-n / ntcb / thermolysin; with C-terminal cutters (thorough) a moved recognised residue is tolerated only as open finding C20-enzyme-site-offset (pinned by a stable test, not repairable).')
 NOT_YET = {}
 
 def main():
